@@ -211,6 +211,14 @@ DIRECTED = [
     # F2: hard link entry carrying data whose target is a symlink: chmod() follows
     [2, SEC | PERM | TIME, 0o22, [], [[T_SYMLINK, b"s", b"/outside/cfile", 0o777, 1, b""], [T_HARDLINK, b"h", b"s", 0o777, 1, b"hello"]]],
     [2, SEC, 0o22, [[2, b"s", b"../outside/cdir", 0]], [[T_HARDLINK, b"h", b"s", 0o700, 1, b"x"]]],
+    # deep path THROUGH a planted symlink: the chdir()-based shortening of names of PATH_MAX bytes and more must not
+    # happen before (or instead of) the symlink walk
+    [2, SEC | PERM | TIME, 0o22, [], [[T_SYMLINK, b"d", b"../outside", 0o777, 1, b""],
+                                      [T_FILE, b"d/" + b"/".join([LONGC] * 17 + [b"f"]), b"", 0o644, 7, b"deep"],
+                                      [T_FILE, b"/".join([LONGC] * 17 + [b"g"]), b"", 0o644, 7, b"control"]]],
+    [2, SEC, 0o22, [[2, b"d", b"/outside/cdir", 0]], [[T_DIR, b"d/" + b"/".join([LONGC] * 18), b"", 0o755, 7, b""]]],
+    [2, SEC | UNLINK, 0o22, [], [[T_DIR, b"a", b"", 0o755, 7, b""], [T_SYMLINK, b"a/s", b"../../outside/sub", 0o777, 1, b""],
+                                 [T_FILE, b"a/s/" + b"/".join([LONGC] * 17 + [b"f"]), b"", 0o644, 7, b"deep"]]],
     # deep path: longer than PATH_MAX
     [2, SEC | PERM | TIME, 0o22, [], [[T_FILE, b"/".join([LONGC] * 17 + [b"f"]), b"", 0o644, 7, b"deep"], [T_DIR, b"/".join([LONGC] * 18), b"", 0o755, 7, b""]]],
     [2, SEC, 0o22, [], [[T_FILE, b"M" * 300 + b"/f", b"", 0o644, 7, b"x"], [T_FILE, b"a/" + b"M" * 300, b"", 0o644, 7, b"x"]]],
